@@ -218,16 +218,24 @@ func init() {
 		},
 	})
 	Properties = append(Properties, &PropertySpec{
-		ID: "C07",
+		ID: "C07", UsesEvalModel: true,
 		Harnesses: []HarnessSpec{
 			{Name: "C07_signs", Expect: []string{"end", "sign-stage-preserves-meaning"}, Witnesses: 8,
 				Quick:    grid([]string{"L"}, seq(0, 5)),
 				Thorough: grid([]string{"L"}, seq(0, 7))},
+			{Name: "C07_glue", Expect: []string{"accepted", "value-equals-reference"}, Witnesses: 8,
+				Quick:    grid([]string{"depth"}, []int{0}),
+				Thorough: grid([]string{"depth"}, []int{0})},
+			{Name: "C07_glue", Expect: []string{"accepted", "rejected", "value-equals-reference"}, Witnesses: 8,
+				Quick:    grid([]string{"depth"}, []int{1}),
+				Thorough: grid([]string{"depth"}, []int{1, 2})},
+			{Name: "C07_assert", Expect: []string{"accepted", "rejected"}},
+			{Name: "C07_constants", Expect: []string{"end"}},
 		},
 	})
 
 	Properties = append(Properties, &PropertySpec{
-		ID: "C06",
+		ID: "C06", UsesEvalModel: true,
 		Harnesses: []HarnessSpec{
 			{Name: "C06_line", Expect: []string{"done", "accepted", "fields-below-M", "denoted-modes"}, Witnesses: 6,
 				Quick:    grid([]string{"M", "dialect", "op"}, []int{8, 8000}, []int{1}, seq(0, 16)),
@@ -248,7 +256,7 @@ func init() {
 	})
 
 	Properties = append(Properties, &PropertySpec{
-		ID: "C05",
+		ID: "C05", UsesEvalModel: true,
 		Harnesses: []HarnessSpec{
 			{Name: "C05_lexer", Expect: []string{"end"}, TerminationClaim: true, Witnesses: 8,
 				Quick:    grid([]string{"Nb"}, []int{0, 1, 2}),
